@@ -113,6 +113,18 @@ CHECKS = [
      'note': 'trusted: dense H from vlib/jw.py, scipy expm; the exactness clause is restricted by a computed completeness predicate because the '
              'projector-splitting integrator has an O(dt^p) splitting error on symmetric sectors whose bonds are left-complete in one charge block and '
              'right-complete in another; order clause is asymptotic and probed at 2-3 step sizes inside an error window'},
+    {'id': 'C11',
+     'technique': 'Hypothesis-generated gate parameters, finite-PEPS circuits and two-layer tensors compared with an independent dense Jordan-Wigner state-vector simulation (scipy.linalg.expm) and with the explicitly fused two-layer tensor',
+     'text': 'Every gate constructor x every family/symmetry that supports it x real/imaginary/complex steps: the operator rebuilt from Gate.G equals '
+             'expm(-step H). Circuits on open lattices and cylinders (<= 6 sites, dense dimension <= 1024): product states of any occupation or identity '
+             'purification, then 1-5 gates (local, nearest-neighbour in all four orientations incl. the cylinder seam, two-site gates along paths, '
+             '2-3 site MPO gates incl. scaled MPOs along bent paths): to_tensor() after every gate equals the dense gate applied to the previous '
+             'dense state (error relative to |G||v| <= 1e-10). DoublePepsTensor (all symmetries/fermionic flags, operator, charge swaps, 8 '
+             'transpositions): lazy tensordot over each neighbouring leg pair in both argument orders == tensordot with fuse_layers(). fpeps.add '
+             'of 1-3 circuit states with amplitudes == linear combination of dense states.',
+     'note': 'trusted: vlib/jw.py, the fermionic order (column by column) and the to_tensor() sign convention (system legs before ancilla legs) stated in '
+             'vlib/pepsgen.py; to_tensor is the observer (cross-checked on product states here and against environments in C12); Heisenberg gate is '
+             'compared with J S.S (the code), not with the factor 2 printed in its docstring'},
     {'id': 'C13',
      'technique': 'Hypothesis-generated spectra and limit combinations checked with a validity predicate derived from the documented two-stage rule; error identity on generated factorisations',
      'text': 'Diagonal spectra with ties, zeros, one-element sectors over 1-5 sectors and every combination of D_total, D_block (scalar/dict), '
